@@ -170,7 +170,7 @@ func checkC07(w *World, r *Report) {
 						isConst = false
 					}
 				}
-				proportional := o2.HasOp("Dec.Quo") && o2.HasOp("Dec.Mul") && o2.HasOp("Dec.TruncateInt") && o2.HasPath("Amount") && o2.HasCall("AmountOf") && o2.HasCall("GetVestingCoins")
+				proportional := o2.HasOp("Dec.Quo") && (o2.HasOp("Dec.Mul") || o2.HasOp("Dec.MulInt") || o2.HasOp("Dec.MulTruncate")) && o2.HasOp("Dec.TruncateInt") && o2.HasPath("Amount") && o2.HasCall("AmountOf") && o2.HasCall("GetVestingCoins")
 				r.Check(isConst || proportional, "C07.reduction", fmt.Sprintf("unlock: amount taken off OriginalVesting #%d", nred), w.Pos(nc.Pos()),
 					map[bool]string{true: "the constant rounding compensation", false: "trunc(requested amount x original / vesting) of the denomination"}[isConst],
 					"the amount taken off OriginalVesting is not the requested amount scaled by original/vesting (origins: "+o2.String()+")")
